@@ -83,6 +83,14 @@ def _not_found(path: StrPath) -> None:
     click.echo(_("Error: {path} does not exist.").format(path=path))
 
 
+def _could_not_create(path: StrPath, error: OSError) -> None:
+    click.echo(
+        _("Error: Could not create {path}: {error}").format(
+            path=path, error=error.strerror or error
+        )
+    )
+
+
 def _could_not_download(identifier: str) -> None:
     click.echo(_("Error: Failed to download license."))
     click.echo("")
@@ -175,6 +183,12 @@ def download(
     licenses = {_strip_plus_from_identifier(lic) for lic in licenses}
     return_code = 0
     for lic in licenses:
+        # An identifier is the name of a file in LICENSES/, never a path to
+        # somewhere else.
+        if not lic or Path(lic).name != lic:
+            _could_not_download(lic)
+            return_code = 1
+            continue
         destination: Path = output  # type: ignore
         if destination is None:
             destination = _path_to_license_file(lic, obj.project)
@@ -188,6 +202,10 @@ def download(
             return_code = 1
         except FileNotFoundError as err:
             _not_found(err.filename)
+            return_code = 1
+        except OSError as err:
+            # E.g. a name that is too long for the file system.
+            _could_not_create(destination, err)
             return_code = 1
         else:
             _successfully_downloaded(destination)
